@@ -130,6 +130,7 @@ type pairStats struct {
 // checkPool checks, for the element with index i, every pair (i, j) and every triple (i, j, k) of the pool.
 func checkPool[T any](p leafPool[T], typ string, i int, prop string) (v *core.Violation, st pairStats, nontrivial bool) {
 	reused := age.Collator[T]().Make()
+	reusedCompare := age.Collator[T]().Make()
 	rank := func(a, b T) age.Rank { return reused.RankValues(a, b) }
 	vals := p.vals
 	i %= len(vals)
@@ -139,7 +140,7 @@ func checkPool[T any](p leafPool[T], typ string, i int, prop string) (v *core.Vi
 		st.pairs++
 		var rab, rba age.Rank
 		var cab bool
-		if pn, payload := lib.Call(func() { rab, rba, cab = rank(a, b), rank(b, a), reused.CompareValues(a, b) }); pn {
+		if pn, payload := lib.Call(func() { rab, rba, cab = rank(a, b), rank(b, a), reusedCompare.CompareValues(a, b) }); pn {
 			return core.Violate(prop+"/leaf/panicked/"+typ, "%s: ranking or comparing %s and %s panicked: %s", typ, p.show(a), p.show(b), lib.Short(payload)), st, false
 		}
 		fresh := age.Collator[T]().Make()
@@ -150,7 +151,7 @@ func checkPool[T any](p leafPool[T], typ string, i int, prop string) (v *core.Vi
 			if cab != (rab == age.EqualRank) {
 				return core.Violate("C08/compare-vs-rank/"+typ, "%s: CompareValues(%s, %s) = %v but RankValues = %v", typ, p.show(a), p.show(b), cab, rab), st, false
 			}
-			if cba := reused.CompareValues(b, a); cba != cab {
+			if cba := reusedCompare.CompareValues(b, a); cba != cab {
 				return core.Violate("C08/not-symmetric/"+typ, "%s: CompareValues(%s, %s) = %v but reversed = %v", typ, p.show(a), p.show(b), cab, cba), st, false
 			}
 			if i == j && !cab {
